@@ -166,6 +166,25 @@ func init() {
 			c.Fail("C21e/ContributeToValidatorsAndCommunityPool/leftover-only-at-end-of-month", c.P.Pos(contrib.Pos()), "the validators' share is not routed by isEndOfMonth")
 		}
 		c.RequireCallers("C21e", rk+"Keeper.isEndOfMonth", rk+"Keeper.ContributeToValidatorsAndCommunityPool")
+		c.Rule("C21f between timers: isEndOfMonth answers true when no refill timer exists (the monthly callback runs after the expired timer was deleted and before the next one is armed; contributions made there belong to the month that just ended)")
+		if iem := c.Fn(rk + "Keeper.isEndOfMonth"); iem != nil {
+			okTrue := false
+			for _, r := range c.AllReturns(iem) {
+				ret := r.Instr.(*ssa.Return)
+				if ir.Desc(ret.Results[0]) == "const(true)" {
+					for _, f := range ir.GuardFacts(ret) {
+						if strings.HasPrefix(f, "(call(builtin:len)(") && strings.Contains(f, "GetFrontTimers)(") && strings.HasSuffix(f, " == const(0))") {
+							okTrue = true
+						}
+					}
+				}
+			}
+			if okTrue {
+				c.OK("C21f/isEndOfMonth/no-timer=>end-of-month", c.P.Pos(iem.Pos()), "return true under len(expiries) == 0")
+			} else {
+				c.Fail("C21f/isEndOfMonth/no-timer=>end-of-month", c.P.Pos(iem.Pos()), "with no refill timer isEndOfMonth no longer answers true: the validators' share taken during the monthly payout is routed to the wrong pool")
+			}
+		}
 		c.NotCovered("amounts, the 24h constant's value, the accuracy of the blocks-to-expiry estimate")
 	})
 }
